@@ -10,7 +10,7 @@ import Ggql.Props.FragCycle
 namespace Ggql.Driver.C03
 open Ggql Ggql.Scan
 
-def cmOf (tb : Tables) (known : List (List UInt8)) : CM := { cmOfTbl tb.valueTbl known with depthLimit := tb.maxParseDepth }
+def cmOf (tb : Tables) (known : List (List UInt8)) : CM := { cmOfTbl tb.valueTbl known with depthLimit := tb.maxParseDepth, listNeedsMember := tb.listNeedsMember }
 
 def tailOf : T → Option Tail
   | .atom "eof" => some .eof
